@@ -1,4 +1,3 @@
-// go2coqh (copy of go2coq with stage 8: --stdpkg, --devirt to a named slice type of the repository)
 // go2coq --repo DIR --out FILE --pkg PKGDIR --funcs A,B,T.M,... [--fuel F#N=COQNAT]... [--param pkg.Func=NAME]... [--iface S.f.M=NAME]...
 //
 // Translates a subset of Go functions of the repository into executable
@@ -22,6 +21,7 @@ import (
 	"os"
 	"os/exec"
 	"path/filepath"
+	"sort"
 	"strings"
 )
 
@@ -29,6 +29,11 @@ type multiFlag []string
 
 func (m *multiFlag) String() string     { return strings.Join(*m, ",") }
 func (m *multiFlag) Set(s string) error { *m = append(*m, s); return nil }
+
+// options added by stage 11 (kept out of the signature of translate)
+var stage11 struct {
+	arrayFields multiFlag
+}
 
 func main() {
 	repo := flag.String("repo", "/repo", "repository root")
@@ -39,12 +44,18 @@ func main() {
 	flag.Var(&fuels, "fuel", "Func#N=<Coq nat expression>: fuel of the N-th loop of Func (overrides the default)")
 	flag.Var(&params, "param", "pkg.Func=NAME: a call of this parameterless library function becomes the Coq variable NAME of the enclosing section")
 	flag.Var(&ifaces, "iface", "Struct.field.Method=NAME: a call of this interface method on a struct field becomes a call of the Coq function parameter NAME")
-	var shapes, objects, vias, devirts, stdpkgs multiFlag
+	var shapes, objects, vias, devirts, packeds, splits, effs, stdpkgs multiFlag
 	flag.Var(&stdpkgs, "stdpkg", "import path of a package of the toolchain's standard library (resolved through GOROOT/src) whose functions are translated too; roots in it are named pkgname.Func")
+	flag.Var(&effs, "eff-shape", "F: the skeleton of F is strict: the nesting of its conditions and, per statement, the calls and the reads of object fields in source order")
+	chans := flag.Bool("chan", false, "channel values are opaque handles (Z); make(chan T), close(c), <-c become calls of the parameters chan_make, chan_close, chan_recv")
+	flag.Var(&packeds, "packed", "S: values of the struct S are opaque handles (Z) built by the pure parameter S_mk and read by the pure parameters S_<field>")
+	splitSame := flag.String("split-same", "", "FILE: the committed snapshot the --split file must agree with (same records and functions, in any order); otherwise exit 1")
+	flag.Var(&splits, "split", "PKGDIR=FILE: the records and functions of the package PKGDIR go to FILE (next to --out), which the main file imports")
 	flag.Var(&vias, "via", "S.f: the field f of the struct S points to a struct translated by value of which there is one instance; it is left out of the record, the methods of S take (and, when they modify it, return) that instance as an explicit parameter")
 	flag.Var(&devirts, "devirt", "I=S: values of the interface type I are pointers to the struct S; their method calls are calls of the methods of S")
 	flag.Var(&objects, "object", "S: pointers to the struct type S are object ids (Z, 0 = nil); the fields live in the heap, one array per object")
 	flag.Var(&shapes, "shape", "Func=SKELETON: the control skeleton the proofs of this tie were written for; a function with another skeleton is left out")
+	flag.Var(&stage11.arrayFields, "arrayfield", "S.f: the field f of the struct S (reached through a pointer) is an array [N]T of integers: the record holds a slice descriptor of the array (len = cap = N), x.f[i] and x.f[lo:hi] are loads / stores / reslices of it")
 	timeInt := flag.Bool("timeint", false, "time.Time values are Z (nanoseconds on one clock): t.Before(u) is t <? u, t.After(u) is u <? t, t.Equal(u) is t =? u")
 	require := flag.String("require", "", "comma separated functions that must be translated (default: all roots); the others may be left out")
 	printShapes := flag.Bool("print-shapes", false, "print Func=SKELETON for every function that would be translated and exit")
@@ -58,7 +69,7 @@ func main() {
 	if *require != "" {
 		req = strings.Split(*require, ",")
 	}
-	text, err := translate(*repo, *pkg, strings.Split(*funcs, ","), fuels, params, ifaces, shapes, req, objects, vias, devirts, stdpkgs, *timeInt, *printShapes)
+	text, err := translate(*repo, *pkg, strings.Split(*funcs, ","), fuels, params, ifaces, shapes, req, objects, vias, devirts, packeds, splits, effs, stdpkgs, *chans, *timeInt, *printShapes)
 	if err != nil {
 		fmt.Fprintln(os.Stderr, "go2coq:", err)
 		os.Exit(1)
@@ -71,10 +82,45 @@ func main() {
 		fmt.Fprintln(os.Stderr, "go2coq:", err)
 		os.Exit(1)
 	}
+	var extra []string
+	for _, sp := range splits {
+		f := sp[strings.Index(sp, "=")+1:]
+		if txt, ok := extraFiles[f]; ok {
+			if *splitSame != "" {
+				// the ties over the split part were checked against this snapshot: the part
+				// generated now must consist of the same definitions
+				snap, err := os.ReadFile(*splitSame)
+				if err != nil || !sameBlocks(string(snap), txt) {
+					os.Remove(*out)
+					fmt.Fprintln(os.Stderr, "go2coq: the part generated for "+f+" differs from the snapshot "+*splitSame+" its ties were checked against (treated as outside the subset)")
+					os.Exit(1)
+				}
+			}
+			if err := os.WriteFile(filepath.Join(filepath.Dir(*out), f), []byte(txt), 0o644); err != nil {
+				fmt.Fprintln(os.Stderr, "go2coq:", err)
+				os.Exit(1)
+			}
+			delete(extraFiles, f)
+			extra = append(extra, f)
+		}
+	}
 	if *selfcheck != "" {
 		// generated Gallina must always be well-formed: a file that does not
 		// compile is a defect of the translator, reported as "outside the subset"
-		cmd := exec.Command("coqc", "-Q", *selfcheck, "GL", filepath.Base(*out))
+		for _, f := range extra {
+			cmd := exec.Command("coqc", "-Q", *selfcheck, "GL", "-Q", ".", "GLGEN", f)
+			cmd.Dir = filepath.Dir(*out)
+			if b, err := cmd.CombinedOutput(); err != nil {
+				os.Remove(*out)
+				fmt.Fprintln(os.Stderr, "go2coq: the generated file "+f+" does not compile (translator defect; treated as outside the subset):", string(b))
+				os.Exit(1)
+			}
+		}
+		args := []string{"-Q", *selfcheck, "GL"}
+		if len(extra) > 0 {
+			args = append(args, "-Q", ".", "GLGEN")
+		}
+		cmd := exec.Command("coqc", append(args, filepath.Base(*out))...)
 		cmd.Dir = filepath.Dir(*out)
 		if b, err := cmd.CombinedOutput(); err != nil {
 			msg := string(b)
@@ -86,4 +132,21 @@ func main() {
 			os.Exit(1)
 		}
 	}
+}
+
+// sameBlocks: two generated files consist of the same records and functions
+// (blocks separated by blank lines, after the header), in any order
+func sameBlocks(a, b string) bool {
+	norm := func(t string) string {
+		if i := strings.Index(t, "\nModule Gen.\n"); i >= 0 {
+			t = t[i:]
+		}
+		bl := strings.Split(t, "\n\n")
+		for i := range bl {
+			bl[i] = strings.TrimSpace(bl[i])
+		}
+		sort.Strings(bl)
+		return strings.Join(bl, "\n\n")
+	}
+	return norm(a) == norm(b)
 }
